@@ -19,6 +19,8 @@ def run_seed(sid, tier, allchecks):
     d = os.path.join(VERIF, 'seeded', sid)
     meta = json.load(open(os.path.join(d, 'meta.json')))
     pid = meta['property']
+    if meta.get('obsolete'):
+        return sid, pid, {'_obsolete': True}
     checks = [pid] + ([f'C{i:02d}' for i in range(1, 21) if f'C{i:02d}' != pid] if allchecks else ALSO.get(pid, []))
     tmp = tempfile.mkdtemp(prefix='wcseed-')
     res = {}
@@ -59,6 +61,9 @@ def main():
         for sid, pid, res in ex.map(lambda s: run_seed(s, tier, allchecks), seeds):
             mp = os.path.join(VERIF, 'seeded', sid, 'meta.json')
             meta = json.load(open(mp))
+            if res.get('_obsolete'):
+                print((sid, 'obsolete (kept with its last detection)', ''), flush=True)
+                continue
             det = {c: r for c, r in res.items() if isinstance(r, dict) and r.get('exit') == 1}
             meta['detected_by'] = {c: r['obligations'] for c, r in det.items()} if det else None
             meta['checks_run'] = {c: (r.get('exit') if isinstance(r, dict) else r) for c, r in res.items()}
